@@ -66,7 +66,7 @@ def make_interp(prop, overrides=None):
 
 def concretize(ip, v, model, depth=0):
     """Engine value -> JSON-able python structure under a z3 model."""
-    if depth > 6:
+    if depth > 12:
         return "<deep>"
     if isinstance(v, Sym):
         val = solver.model_value(model, v.t)
@@ -101,8 +101,20 @@ def concretize(ip, v, model, depth=0):
             if dom is None:
                 return {"__symdict__": str(model.eval(v.dom, model_completion=True))[:300]}
             keys = [k for k, b in dom[1] if z3.is_true(b)]
-            return {"__dict__": [[solver.z3_to_py(k), solver.z3_to_py(model.eval(z3.Select(v.mp, k), model_completion=True))]
-                                 for k in keys], "default_in_dom": z3.is_true(dom[0])}
+            out = {"__dict__": [[solver.z3_to_py(k), solver.z3_to_py(model.eval(z3.Select(v.mp, k), model_completion=True))]
+                                for k in keys], "default_in_dom": z3.is_true(dom[0])}
+            if z3.is_true(dom[0]):
+                # the model makes EVERY key present: give the replay the value map as well (explicit entries + default value)
+                mp = _array_entries(model.eval(v.mp, model_completion=True))
+                if mp is not None:
+                    absent = {str(k) for k, b in dom[1] if z3.is_false(b)}
+                    seen = {str(k) for k in keys}
+                    for k, val in mp[1]:
+                        if str(k) not in absent and str(k) not in seen:
+                            out["__dict__"].append([solver.z3_to_py(k), solver.z3_to_py(val)])
+                    out["default_value"] = solver.z3_to_py(mp[0])
+                    out["absent"] = [solver.z3_to_py(k) for k, b in dom[1] if z3.is_false(b)]
+            return out
         from .prims_methods import _unhash
         return {"__dict__": [[concretize(ip, _unhash(k), model, depth + 1), concretize(ip, x, model, depth + 1)]
                              for k, x in v.items.items()]}
@@ -147,6 +159,7 @@ class UnitRunner:
         self.obligations: dict[str, dict] = {}
         self.paths = 0
         self.paths_after_requires = 0
+        self.guard_hits: dict[str, int] = {}      # how often each on_effect pattern matched an event (vacuity report)
         self.hard_time = 0.0        # solver time of this unit's queries that were refuted or left unknown
         self.cover_hits: dict[str, bool] = {}
         self.assumptions: set[str] = set()
@@ -391,6 +404,7 @@ class UnitRunner:
                 def on_eff(ev, _env=env):
                     for pat, guards in c["on_effect"].items():
                         if ev.name == pat or ev.name.endswith("." + pat):
+                            self.guard_hits[pat] = self.guard_hits.get(pat, 0) + 1
                             e2 = dict(_env)
                             e2["ev"] = ev
                             e2["args"] = ev.args
@@ -480,6 +494,7 @@ class UnitRunner:
             "outcomes": _count(outcomes), "obligations": list(self.obligations.values()),
             "assumptions": sorted(self.assumptions), "wall_s": time.time() - t0,
             "inlined": sorted(inlined_all), "note": c["note"], "bound": c.get("bounded"),
+            "guard_hits": {pat: self.guard_hits.get(pat, 0) for pat in c["on_effect"]},
         }
 
 
